@@ -9,7 +9,6 @@ BUILDS = {
         "cmd": ["cargo", "build", "--release", "--offline", "--no-default-features", "--features", "alt",
                 "--target-dir", "/verif/target/alt"],
         "bin": "/verif/target/alt/release/harness",
-        "setup": False,
     },
 }
 
@@ -300,6 +299,24 @@ PROPS = {
         "runs": [
             {"engine": "vt", "quick": 8000, "thorough": 800000, "what": "E-A: factory capacity scenarios"},
             {"engine": "lb", "quick": 8000, "thorough": 2000000, "what": "leaky bucket driven directly under the paused clock"},
+        ],
+    },
+    "C16": {
+        "level": "exploration",
+        "technique": "runtime monitoring: per-subscription received sequence (converter-tagged, stamped) checked offline against the published stream and the subscription / stop positions: converter image, strictly increasing (order, no duplicate), nothing from before subscribe, filtered elements absent, completeness for live subscribers (v2: all; v1: all unless more than 10 behind inside a burst), publisher never blocked; both port implementations (main build = v1, alt build = v2)",
+        "level_text": ("Exploration: a publisher emits 10-600 elements in bursts of 1-25 (no await inside a burst); 1-6 subscriptions (own filter+map "
+                       "converter, slow or fast subscriber actor, optional re-subscription of an already subscribed or already stopped actor) are made "
+                       "and subscribers are stopped at exact stream positions by the publisher task itself; run on the virtual-time engine (forwarders "
+                       "drained between bursts so that the v1 lag rule is exact) and on the thread engine, for the default port and - in the alt build - "
+                       "the v2 port. Held on what was observed."),
+        "level_note": "Completeness is only demanded of subscribers that live to the end (a stopped subscriber drops its mailbox, C02). v1 on real threads: only 'the final element still arrives' is demanded.",
+        "rule": "non-trivial = >= 1 subscription received something and (>= 2 subscriptions or a subscriber stop); distinct = hash(stream length, #subscriptions, #stops, #deliveries, port version).",
+        "assumptions": ["the publisher task performs subscribe/stop itself, so stream positions are exact"],
+        "runs": [
+            {"engine": "vt", "quick": 6000, "thorough": 400000, "what": "E-A, default (v1, broadcast) port"},
+            {"engine": "th", "quick": 160, "thorough": 16000, "what": "E-T, default (v1) port"},
+            {"engine": "vt", "build": "alt", "quick": 6000, "thorough": 400000, "what": "E-A, v2 port (alt build: async-trait + output-port-v2, no cluster)"},
+            {"engine": "th", "build": "alt", "quick": 160, "thorough": 16000, "what": "E-T, v2 port (alt build)"},
         ],
     },
 }
